@@ -220,6 +220,7 @@ func c05Run(c *fw.Ctx) {
 	c05Late(c)
 	c05HandlerErrors(c)
 	c05Counters(c)
+	c05Windows(c)
 	// AUTH dispatch to the auth handler
 	for v := 0; v < 3; v++ {
 		for _, a := range [][]string{{"AUTH", "pw"}, {"AUTH", "user", "pw"}, {"AUTH", "\r\n"}, {"AUTH", "u\x00", "p q"}} {
